@@ -39,9 +39,12 @@ for fn in sorted(os.listdir(os.path.join(ROOT, "tools"))):
             CHECKS[k] = tuple(v)
             NA.pop(k, None)
 
+ASAN = {"C02", "C04", "C05", "C07", "C09", "C17", "C18"}
 checks = []
 for pid in sorted(CHECKS):
     cat, text, note, tech = CHECKS[pid]
+    if pid in ASAN:
+        text += " The thorough tier runs one batch of cases in eight in an AddressSanitizer build of the harness and the crate (real frees), so that accesses to freed or out-of-bounds memory that change nothing observable still stop the run."
     checks.append({
         "property_id": pid,
         "quick_cmd": f"./check {pid} --tier quick",
